@@ -214,6 +214,7 @@ MODELS = {
     "NdInterp": M("NdInterp", "NdInterp.tla", "MC_NdInterp.cfg", "MC_NdInterp_thorough.cfg", workers=8),
     "NdInterpSpline": M("NdInterp-with-splines", "NdInterp.tla", "MC_NdInterpSpline.cfg", workers=8),
     "NdInterp2D": M("NdInterp-2D", "NdInterp.tla", "MC_NdInterp2D.cfg", workers=8),
+    "NdInterpLive": M("NdInterp-every-call-returns (liveness under weak fairness)", "NdInterp.tla", "MC_NdInterpLive.cfg", workers=8),
     "NdInterpNeg": M("NdInterp-with-shared-hint", "NdInterp.tla", "MC_NdInterpNeg.cfg", workers=8, expect_violation=True, thorough_only=True),
     "Monotone": M("Monotone", "Monotone.tla", "MC_Monotone.cfg", "MC_Monotone_thorough.cfg"),
     "MonotoneNaN": M("Monotone-with-NaN", "Monotone.tla", "MC_MonotoneNaN.cfg"),
@@ -249,6 +250,8 @@ GENS = {
     # long random behaviours (2 interpolators of any kind, 40 calls) from TLC's simulation mode
     "NdWalk": {"name": "Gen_NdInterpWalk", "module": "Gen_NdInterp.tla", "cfg": "Gen_NdInterpWalk.cfg", "scenario": "script",
                "reset_every": 0, "mark_every": 5, "simulate": {"num": 60, "num_thorough": 600, "depth": 100}},
+    "Poly": {"name": "Gen_Poly", "module": "Gen_Poly.tla", "cfg": "Gen_Poly.cfg", "cfg_thorough": "Gen_Poly_thorough.cfg", "scenario": "script", "reset_every": 200},
+    "Units": {"name": "Gen_Units", "module": "Gen_Units.tla", "cfg": "Gen_Units.cfg", "cfg_thorough": "Gen_Units_thorough.cfg", "scenario": "script", "reset_every": 250},
     "Lanes": {"name": "Gen_Lanes", "module": "Gen_Lanes.tla", "cfg": "Gen_Lanes.cfg", "scenario": "script", "reset_every": 20},
     "Lookup": {"name": "Gen_Lookup", "module": "Gen_Lookup.tla", "cfg": "Gen_Lookup.cfg", "cfg_thorough": "Gen_Lookup_thorough.cfg", "scenario": "lower"},
 }
@@ -270,13 +273,13 @@ PROP_MODELS = {
     "C14": ["Buffers", "BuffersNegShape", "NdInterp"],
     "C15": ["Linear", "Bilinear", "SplineTheorems"],
     "C16": ["SplineTheorems", "Linear", "Bilinear"],
-    "C17": ["NdInterp", "NdInterpNeg"],
+    "C17": ["NdInterp", "NdInterpLive", "NdInterpNeg"],
     "C18": ["Builder", "Builder2"],
     "C19": ["DimTypes", "DimTypesNeg"],
     "C20": ["Linear", "Bilinear"],
 }
 PROP_GENS = {"C12": ["Monotone"], "C11": ["Lookup"], "C10": ["Builder"], "C14": ["Buffers", "NdLinear"], "C13": ["Buffers"], "C19": ["DimTypes"],
-             "C04": ["Nd2D"], "C03": ["Lanes"], "C08": ["Lanes"], "C05": ["NdLinear", "Nd2D"], "C06": ["NdSpline"], "C07": ["NdSpline"], "C17": ["NdLinear", "NdWalk"]}
+             "C04": ["Nd2D"], "C03": ["Lanes"], "C08": ["Lanes"], "C16": ["Poly"], "C15": ["Units"], "C05": ["NdLinear", "Nd2D"], "C06": ["NdSpline"], "C07": ["NdSpline"], "C17": ["NdLinear", "NdWalk"]}
 
 for _p, _ms in PROP_MODELS.items():
     PROPS[_p]["mc"] = [MODELS[m] for m in _ms]
@@ -285,6 +288,18 @@ for _p, _gs in PROP_GENS.items():
 # the generated cases replace the harness-local enumeration of these scenarios
 PROPS["C11"]["aux"] = [{"name": "apalache-inductive-invariant-of-the-search-loop-for-any-axis-length",
                         "cmd": "spec/apalache/run.sh"}]
+# binding demonstration (thorough tier): one recorded field is corrupted at a time and TLC must reject the trace at
+# that line with a violation naming the property (bin/selftest; all corruptions: `bin/selftest`)
+_SELFTESTS = {
+    "C01": "result-bits rows-swapped", "C02": "spline-value", "C03": "spline-value", "C04": "bilinear-value", "C05": "outcome",
+    "C06": "outcome", "C07": "periodic-value", "C08": "lane-1ulp", "C09": "result-shape", "C10": "build-outcome",
+    "C11": "lookup-index", "C12": "monotonic-class", "C13": "layout-1ulp", "C14": "buffer-outside", "C15": "units-1ulp",
+    "C16": "polynomial-value", "C17": "history-1ulp", "C18": "custom-build-axis custom-call-dropped", "C19": "cast-type cast-size",
+    "C20": "locality-1ulp",
+}
+for _p, _names in _SELFTESTS.items():
+    PROPS[_p].setdefault("aux", []).append({"name": "binding-selftest: corrupted recorded fields must be rejected (" + _names + ")",
+                                            "cmd": "bin/selftest " + _names, "thorough_only": True})
 PROPS["C12"]["scenarios"] = []
 PROPS["C11"]["scenarios"] = []
 
